@@ -8,6 +8,7 @@ from .. import gen as G
 from .. import arith as A
 
 ID = 'C09'
+TECHNIQUE = 'runtime monitoring: / // % events judged against exact Fraction quotient / floor / modulo; library-level identity checked between real executions'
 TITLE = '/ within one LSB, // and % exact'
 RULE = ('division events (/ // % by operator, fxpmath function and NumPy ufunc) with optimal sizing, non-zero divisors, result word '
         '1..53: x/y must equal the exact quotient when representable and otherwise be floor or floor+1 of quotient*2^n_frac, with the '
